@@ -57,7 +57,7 @@ function getPathAndLine (sourceMap, filename, line, column) {
       // line and column are 1-based; a missing column (0) means the beginning of the line
       const { originalSource, originalLine, originalColumn } = sourceMap.findEntry(line - 1, Math.max(column - 1, 0))
       return {
-        path: path.join(filePath, originalSource),
+        path: path.isAbsolute(originalSource) ? originalSource : path.join(filePath, originalSource),
         line: originalLine + 1,
         column: originalColumn + 1
       }
